@@ -31,22 +31,42 @@ Definition vfloordiv (a b : Q) : Q := if is_zero b then 0 else qfloor (a / b).
 Definition vmod (a b : Q) : Q := Qred (a - b * qfloor (a / b)).
 
 (* ---- the implementation as it is today ------------------------------------- *)
-(* integer_divide computes `lhs // rhs` with whatever number class lhs has.  When lhs
-   is a sympy Integer and rhs a sympy Rational that is not an integer, sympy 1.14
-   evaluates Integer.__floordiv__ through Number.__divmod__:
-       w = int(rat) if rat >= 0 else int(rat) - 1 ; r = self - other*w
-       if r == Float(other): w += 1
-   and a Rational never compares equal to a Float since sympy 1.13, so an exact
-   negative quotient comes out one too small (Integer(-4) // Rational(1,2) = -9).
-   Python int // Rational and Rational // anything use floor(self/other) and are right.
-   `lsym` = the left operand is a sympy number (not a Python int). *)
+(* integer_divide computes `lhs // rhs` with whatever number classes the operands have
+   (`lsym` / `rsym` = the operand is a sympy number, not a Python int).  Python int //
+   Python int, Python int // sympy, sympy // Python int, Rational // Rational and
+   Integer // Integer are the exact floor.  Two operand classes are not (sympy 1.14):
+
+   (1) sympy Integer // non-integer Rational.  Integer.__floordiv__ goes through
+       Number.__divmod__:
+           w = int(rat) if rat >= 0 else int(rat) - 1 ; r = self - other*w
+           if r == Float(other): w += 1
+       and a Rational never compares equal to a Float since sympy 1.13, so an exact
+       negative quotient comes out one too small: Integer(-4) // Rational(1,2) = -9.
+
+   (2) non-integer Rational // sympy Integer.  Integer is a subclass of Rational, so
+       Python tries the right operand's reflected method first, and
+           Integer.__rfloordiv__(self, other) = Integer(Integer(other).p // self.p)
+       truncates lhs toward zero before dividing: Rational(-7,2) // Integer(1) = -3.
+       (Not for lhs = 1/2: that is the singleton class Half, of which Integer is not a
+       subclass, so Half.__floordiv__ = floor(self / other) runs.) *)
 Definition floordiv_quirk (lsym : bool) (a b : Q) : bool :=
   lsym && is_int a && negb (is_int b) && is_int (a / b) && negb (Qle_bool 0 (a / b)).
 
-Definition vfloordiv_impl (lsym : bool) (a b : Q) : Q :=
+Definition qtrunc (a : Q) : Z := Z.quot (Qnum a) (Zpos (Qden a)).   (* toward zero *)
+
+Definition floordiv_trunc_path (rsym : bool) (a b : Q) : bool :=
+  rsym && negb (is_int a) && negb (Qeq_bool a (1 # 2)) && is_int b.
+
+Definition vfloordiv_impl (lsym rsym : bool) (a b : Q) : Q :=
   if is_zero b then 0
+  else if floordiv_trunc_path rsym a b then qfloor (inject_Z (qtrunc a) / b)
   else if floordiv_quirk lsym a b then Qred (a / b - 1)
   else qfloor (a / b).
+
+(* the operand classes on which integer_divide can differ from the exact floor: (1),
+   and (2) with operands of opposite sign *)
+Definition floordiv_defect_class (lsym rsym : bool) (a b : Q) : bool :=
+  floordiv_quirk lsym a b || (floordiv_trunc_path rsym a b && negb (Qle_bool 0 (a * b))).
 
 (* ---- observable results: the canonical form the harness compares ----------- *)
 Inductive cval :=
@@ -71,58 +91,58 @@ Inductive op := OAdd | OSub | OMul | ODiv | OMod | OFloordiv.
 
 Definition vmod_impl (a b : Q) : cval := if is_zero b then CZeroDiv else canon (vmod a b).
 
-Definition run_op (o : op) (lsym : bool) (a b : Q) : cval :=
+Definition run_op (o : op) (lsym rsym : bool) (a b : Q) : cval :=
   match o with
   | OAdd => canon (vadd a b)
   | OSub => canon (vsub a b)
   | OMul => canon (vmul a b)
   | ODiv => canon (vdiv a b)
   | OMod => vmod_impl a b
-  | OFloordiv => canon (vfloordiv_impl lsym a b)
+  | OFloordiv => canon (vfloordiv_impl lsym rsym a b)
   end.
 
-(* one correspondence case: operator, "lhs is a sympy number", lhs p/q, rhs p/q, and
-   what the implementation returned *)
-Definition K (o : op) (lsym : bool) (p1 : Z) (q1 : positive) (p2 : Z) (q2 : positive) (r : cval) : bool :=
-  cval_eqb (run_op o lsym (Qmake p1 q1) (Qmake p2 q2)) r.
+(* one correspondence case: operator, "lhs / rhs is a sympy number", lhs p/q, rhs p/q,
+   and what the implementation returned *)
+Definition K (o : op) (lsym rsym : bool) (p1 : Z) (q1 : positive) (p2 : Z) (q2 : positive) (r : cval) : bool :=
+  cval_eqb (run_op o lsym rsym (Qmake p1 q1) (Qmake p2 q2)) r.
 
 (* ---- expression trees over + - * / ------------------------------------------ *)
 Inductive expr :=
-| Lit (q : Q)
-| Add (a b : expr)
-| Sub (a b : expr)
-| Mul (a b : expr)
-| Div (a b : expr).
+| ELit (q : Q)
+| EAdd (a b : expr)
+| ESub (a b : expr)
+| EMul (a b : expr)
+| EDiv (a b : expr).
 
-Definition L (p : Z) (q : positive) : expr := Lit (Qmake p q).
+Definition L (p : Z) (q : positive) : expr := ELit (Qmake p q).
 
 (* chained through the model of the element functions *)
 Fixpoint eval_model (e : expr) : Q :=
   match e with
-  | Lit q => q
-  | Add a b => vadd (eval_model a) (eval_model b)
-  | Sub a b => vsub (eval_model a) (eval_model b)
-  | Mul a b => vmul (eval_model a) (eval_model b)
-  | Div a b => vdiv (eval_model a) (eval_model b)
+  | ELit q => q
+  | EAdd a b => vadd (eval_model a) (eval_model b)
+  | ESub a b => vsub (eval_model a) (eval_model b)
+  | EMul a b => vmul (eval_model a) (eval_model b)
+  | EDiv a b => vdiv (eval_model a) (eval_model b)
   end.
 
 (* the reference: field arithmetic of Q *)
 Fixpoint eval_Q (e : expr) : Q :=
   match e with
-  | Lit q => q
-  | Add a b => eval_Q a + eval_Q b
-  | Sub a b => eval_Q a - eval_Q b
-  | Mul a b => eval_Q a * eval_Q b
-  | Div a b => eval_Q a / eval_Q b
+  | ELit q => q
+  | EAdd a b => eval_Q a + eval_Q b
+  | ESub a b => eval_Q a - eval_Q b
+  | EMul a b => eval_Q a * eval_Q b
+  | EDiv a b => eval_Q a / eval_Q b
   end.
 
 (* every divisor of the tree has a non-zero value *)
 Fixpoint divisors_nonzero (e : expr) : Prop :=
   match e with
-  | Lit _ => True
-  | Add a b | Sub a b | Mul a b => divisors_nonzero a /\ divisors_nonzero b
-  | Div a b => divisors_nonzero a /\ divisors_nonzero b /\ ~ eval_Q b == 0
+  | ELit _ => True
+  | EAdd a b | ESub a b | EMul a b => divisors_nonzero a /\ divisors_nonzero b
+  | EDiv a b => divisors_nonzero a /\ divisors_nonzero b /\ ~ eval_Q b == 0
   end.
 
 (* tree correspondence case: the tree and the canonical result of the implementation *)
-Definition T (e : expr) (r : cval) : bool := cval_eqb (canon (eval_model e)) r.
+Definition TC (e : expr) (r : cval) : bool := cval_eqb (canon (eval_model e)) r.
